@@ -2,6 +2,8 @@
 use crate::apollo::schema_walk::{diff, normalise_message, walk_schema, Diff};
 use crate::choices::Choices;
 use crate::gen::schema_ext;
+use crate::refmodel::order::{expected_order, is_builtin_type_name, BUILTIN_DIRECTIVE_NAMES};
+use crate::refmodel::parser::parse_document;
 use crate::refmodel::printer;
 use crate::runner::{Ctx, Outcome, Prop, Tier};
 use apollo_compiler::schema::{ComponentOrigin, ExtendedType};
@@ -191,6 +193,42 @@ fn not_equal_where(a: &Schema, b: &Schema) -> String {
     "type-extra".into()
 }
 
+/// Compare the ordered collections of the BUILT schema with the order the source document implies
+/// (reference model `refmodel::order`: the definition's components, then every extension's in
+/// source order; types and directive definitions in definition order).
+pub fn source_order_failures(text: &str, s: &Schema, prefix: &str) -> Option<Vec<(String, String)>> {
+    let doc = parse_document(text).ok()?;
+    let expected = expected_order(&doc);
+    let actual = crate::apollo::schema_walk::order_facts(s, &|n| is_builtin_type_name(n), &|n| BUILTIN_DIRECTIVE_NAMES.contains(&n));
+    let mut fails = vec![];
+    for e in &expected {
+        let got = actual.iter().find(|(p, _)| *p == e.path).map(|(_, v)| v.as_str());
+        let ok = match got {
+            None => false,
+            Some(g) if e.suffix_only => {
+                e.value.is_empty() || g == e.value || g.ends_with(&format!(",{}", e.value)) || g.ends_with(&format!(" {}", e.value))
+            }
+            Some(g) => g == e.value,
+        };
+        if !ok {
+            let sig = format!("{prefix}|source-order|{}", e.kind);
+            if !fails.iter().any(|(x, _): &(String, String)| *x == sig) {
+                fails.push((
+                    sig,
+                    format!(
+                        "{}: the source document implies [{}]{}, the built schema has [{}]",
+                        e.path,
+                        e.value,
+                        if e.suffix_only { " at the end" } else { "" },
+                        got.unwrap_or("<absent>")
+                    ),
+                ));
+            }
+        }
+    }
+    Some(fails)
+}
+
 /// The oracle, on any schema source text.
 pub fn check_text(text: &str, ctx: &mut Ctx) -> Outcome {
     let s = match Schema::parse(text, "schema.graphql") {
@@ -218,6 +256,10 @@ pub fn check_text(text: &str, ctx: &mut Ctx) -> Outcome {
         }
     };
     let mut fails: Vec<(String, String)> = vec![];
+    match source_order_failures(text, &s, "C12") {
+        Some(f) => fails.extend(f.into_iter().map(|(sig, d)| (sig, format!("{d}\n--- source:\n{text}")))),
+        None => ctx.class("source-not-parsed-by-reference"),
+    }
     if s2 != s {
         let w = not_equal_where(&s, &s2);
         fails.push((format!("C12|not-equal|{w}"), format!("reparsed schema != built schema ({w})\n--- serialized:\n{t}")));
